@@ -336,6 +336,15 @@ func (r *Run) flush(doneThru int, complete bool) {
 // workerVMLimitKB is the address-space limit of one worker process (ulimit -v, in KiB).
 var workerVMLimitKB = "12582912" // 12 GiB
 
+// workerProcs is GOMAXPROCS of a worker process. Under the cooperative scheduler exactly one
+// goroutine runs at a time, and hand-offs are fastest on a single P.
+var workerProcs = func() string {
+	if v := os.Getenv("VERIF_WORKER_PROCS"); v != "" {
+		return v
+	}
+	return "1"
+}()
+
 // Distribute runs f(i) for every i in [0,n) spread over worker *processes* (code under a
 // global controlled scheduler, or code that may crash fatally, needs one process per
 // worker). In the parent it returns after all workers' results are merged; a worker
@@ -412,7 +421,7 @@ func (r *Run) Distribute(n int, f func(i int)) {
 				cmd := exec.Command("/bin/sh", append([]string{"-c", "ulimit -v " + workerVMLimitKB + " 2>/dev/null; exec \"$0\" \"$@\"", os.Args[0]}, args...)...)
 				var buf bytes.Buffer
 				cmd.Stdout, cmd.Stderr = &buf, &buf
-				cmd.Env = append(os.Environ(), "GOMAXPROCS=2")
+				cmd.Env = append(os.Environ(), "GOMAXPROCS="+workerProcs)
 				err := cmd.Run()
 				var st state
 				b, rerr := os.ReadFile(out)
